@@ -7,6 +7,17 @@ def nonshareable(files):
     return {r["name"] for docs in files.values() for d in docs for c in (d.get("contexts") or []) + (d.get("builders") or [])
             for r in (c.get("rules") or []) if r.get("shareable", r.get("sharable", True)) is False}
 
+def witness_pipe_in_path(laze):
+    """a source name with a `|` (ninja has no escape for it): two builders both 'produce' the part before the pipe"""
+    from .. import directed, e2e, ninja_parse
+    f = directed.base([], [{"name": "app", "sources": ["a|b.c"]}])
+    r = e2e.run_laze(laze, f, {}, info=False)
+    if r["rc"] != 0 or r["ninja"] is None: return False
+    p = ninja_parse.parse(r["ninja"].decode("utf-8", "replace"))
+    return any(cl == "output-produced-twice" for cl, _, _ in mc.wf_manifest(p, []))
+
+KNOWN = {"K06:pipe-in-path": witness_pipe_in_path}
+
 def run(rep, tier, seed, rng):
     core.proof_step(rep, "C06", clean=(tier == "thorough"))
     cases = gen_common.load_cases(rng, tier, 300, 5000, focus="build")
@@ -66,6 +77,13 @@ def run(rep, tier, seed, rng):
             for clause, detail in mc.under_builddir(parsed, c["build_dir"]):
                 rep.violation("laze-chosen path outside the build directory %s: %s" % (c["build_dir"], detail), gen_common.replay_data(r, clause=clause, detail=detail), found_input=True)
     rep.cov.update(other_build_dirs=nbd)
+    wit = {}
+    for key, fn in KNOWN.items():
+        try: wit[key] = bool(fn(laze))
+        except Exception as e: wit[key] = "error: %s" % e
+        if wit[key] is True and key not in {k["key"] for k in known}:
+            rep.violation("generated file is not a well-formed build graph (%s)" % key, dict(witness=key), found_input=True)
+    rep.cov.update(known_finding_witnesses=wit)
     if nuser and not known:
         rep.violation("user-chosen outputs collide but no known finding is recorded", {}, found_input=False)
     rep.cov.update(evaluations=len(cases), distinct_nontrivial=len(distinct),
@@ -74,4 +92,4 @@ def run(rep, tier, seed, rng):
                    samples=[dict(cli=results[-1]["cli"], n_statements=len(results[-1]["impl_parsed"]["builds"]) if results[-1]["impl_parsed"] else 0)],
                    files_checked=nfiles, user_chosen_collisions=nuser, download_dir_clashes=ndlclash, disagreements=ndis, **gen_common.stats(cases, results))
     rep.assumptions.append("no ninja binary in the sandbox: 'ninja can load it' is the predicate wf_manifest written from ninja's loading rules")
-    rep.assumptions.append("paths are written unescaped; inputs with spaces/colons/$ in paths are outside the generator (known limitation)")
+    rep.assumptions.append("blanks and colons in paths are escaped (fix 20ce961) and generated; `|` and `$` in paths are outside the generator: ninja has no escape for `|` (open finding K06:pipe-in-path, witness run on every check) and reads `$x` as a variable")
